@@ -512,7 +512,20 @@ fn inner_rec(seed: u64, actions: &mut Vec<String>, calls_checked: &mut u64, nont
     let mut held_f: Vec<(usize, Incr<i64>, Option<Observer<i64>>)> = vec![];
     let mut held_v: Vec<(i64, Incr<i64>, Option<Observer<i64>>)> = vec![];
     // a key of the recursive family is alive while a held node reaches it
-    let alive_f = |held: &Vec<(usize, Incr<i64>, Option<Observer<i64>>)>, k: usize| held.iter().any(|(n, _, _)| *n == k || (*n >= 2 && k < *n));
+    // a bind that returns F(sel): walking sel up and down makes each new right-hand side a node
+    // built on the previous one (or the other way round)
+    let fsel = st.var(2i64);
+    let fbind = {
+        let fib = fib.clone();
+        fsel.bind(move |s| fib(*s))
+    };
+    let fbind_obs = fbind.observe();
+    let mut fsel_val = 2usize;
+    // key the bind holds (as of the last stabilise)
+    let bind_holds: Cell<Option<usize>> = Cell::new(None);
+    let alive_f = |held: &Vec<(usize, Incr<i64>, Option<Observer<i64>>)>, k: usize| {
+        held.iter().map(|(n, _, _)| *n).chain(bind_holds.get()).any(|n| n == k || (n >= 2 && k < n))
+    };
     // stabilises since the key (or id) was last alive
     let mut dead_rounds_f = [1u32; N + 1];
     let mut dead_rounds_v = [1u32; 4];
@@ -605,13 +618,39 @@ fn inner_rec(seed: u64, actions: &mut Vec<String>, calls_checked: &mut u64, nont
                 }
             }
             7 => {
-                base_val = rng.range(0, 9);
-                base.set(base_val);
-                actions.push(format!("base={base_val}"));
+                if rng.chance(1, 2) {
+                    base_val = rng.range(0, 9);
+                    base.set(base_val);
+                    actions.push(format!("base={base_val}"));
+                } else {
+                    fsel_val = if rng.chance(1, 2) { (fsel_val + 1).min(N) } else { fsel_val.saturating_sub(1) };
+                    fsel.set(fsel_val as i64);
+                    actions.push(format!("bind over F: sel={fsel_val}"));
+                }
             }
             _ => {
                 st.stabilise();
                 actions.push("stabilise".into());
+                if bind_holds.get() != Some(fsel_val) {
+                    // the bind let go of its previous node during this stabilise
+                    for k in 0..=N {
+                        if dead_rounds_f[k] == u32::MAX {
+                            dead_rounds_f[k] = 0;
+                        }
+                    }
+                    bind_holds.set(Some(fsel_val));
+                }
+                match fbind_obs.try_get_value() {
+                    Ok(x) if x == fref(base_val, fsel_val) => {}
+                    other => return Err(format!("the bind over F({fsel_val}) reads {:?}, expected {}", other, fref(base_val, fsel_val))),
+                }
+                #[cfg(cormacrelf_incremental_rs_verif)]
+                {
+                    let audit = st.verif_audit();
+                    if !audit.is_empty() {
+                        return Err(format!("audit after stabilise: {}", audit.join(" | ")));
+                    }
+                }
                 for k in 0..=N {
                     if alive_f(&held_f, k) {
                         dead_rounds_f[k] = u32::MAX;
@@ -647,6 +686,8 @@ fn inner_rec(seed: u64, actions: &mut Vec<String>, calls_checked: &mut u64, nont
     }
     drop(held_f);
     drop(held_v);
+    drop(fbind_obs);
+    drop(fbind);
     st.stabilise();
     Ok(())
 }
